@@ -472,12 +472,25 @@ impl ProgGen {
                 2 => {
                     let k = t.draw(5) as u64;
                     est_bits += k as usize * unit;
-                    items.push(Item::Res(lit_of(k)));
+                    // v2: the amount behind an assertion (holding, or - with faults allowed - failing)
+                    if crate::engine::gen_version() >= 2 && t.chance(1, 8) {
+                        let holds = !(self.allow_faults && t.chance(1, 3));
+                        let c = E::Bin(BinOp::Eq, Box::new(lit_of(1)), Box::new(lit_of(if holds { 1 } else { 2 })));
+                        items.push(Item::Res(E::Block(vec![E::Call("assert".into(), vec![c]), lit_of(k)])));
+                    } else {
+                        items.push(Item::Res(lit_of(k)));
+                    }
                 }
                 3 => {
                     let a = *t.pick(&[8u64, 16, 32, 64]);
                     est_bits += a as usize;
-                    items.push(Item::Align(lit_of(a)));
+                    if crate::engine::gen_version() >= 2 && t.chance(1, 8) {
+                        let holds = !(self.allow_faults && t.chance(1, 3));
+                        let c = E::Bin(BinOp::Eq, Box::new(lit_of(1)), Box::new(lit_of(if holds { 1 } else { 2 })));
+                        items.push(Item::Align(E::Block(vec![E::Call("assert".into(), vec![c]), lit_of(a)])));
+                    } else {
+                        items.push(Item::Align(lit_of(a)));
+                    }
                 }
                 4 => {
                     // forward #addr: beyond everything emitted so far in this bank
